@@ -3,7 +3,8 @@
 From Coq Require Import List ZArith QArith Qcanon Bool Rdefinitions Qreals.
 From Flocq Require Core.
 From Inovesa Require Import Base.FieldKit Base.Float32 Gen.Gen_Coeffs Model.Kick
-  Proofs.WeightsP Proofs.KickP Proofs.KickGridP Model.Rotation Proofs.RotationP Proofs.Float32P.
+  Proofs.WeightsP Proofs.KickP Proofs.KickGridP Model.Rotation Proofs.RotationP Proofs.Float32P
+  Model.RotX Gen.Gen_Rotation Gen.Gen_Ruler Model.RotationGen Proofs.RotationGenP.
 Import ListNotations.
 Local Open Scope Z_scope.
 
@@ -58,6 +59,212 @@ Theorem C02_rot_poly_reproduction :
     (fpow (X + xf) k * fpow (Y + yf) l)%F.
 Proof. exact rot_poly_reproduction. Qed.
 Print Assumptions C02_rot_poly_reproduction.
+
+(** ** RotationMap over the GENERATED definitions (Gen/Gen_Rotation.v: genHInfo, apply and the constructors by symbolic
+    execution of this run's source, translate/rotation2coq.py; vocabulary Model/RotX.v; assembly Model/RotationGen.v) *)
+
+(** genHInfo with the model's arithmetic (binary32 rounding of every operation that reaches the std::modf split,
+    exact weights) writes the hand-written row of Model/Rotation.v into the block it is given ... *)
+Theorem C02_rot_generated_is_model :
+  forall xs ys it P (ax ay : Z -> Qc) x0 y0,
+    valid_it it -> 0 < xs /\ 0 < ys /\ xs * ys <= 2 ^ 32 -> rot_defined P (ax x0) (ay y0) = true ->
+    forall old k, 0 <= k < it * it ->
+      rg_G xs ys it (it * it) P ax ay x0 y0 old k = nth (Z.to_nat k) (rot_entries xs ys it P (ax x0) (ay y0)) (0, 0%Qc).
+Proof. exact rg_generated_is_model. Qed.
+Print Assumptions C02_rot_generated_is_model.
+
+(** ... and touches nothing else (every field, every rounding, every integer/fraction split) *)
+Theorem C02_rot_genHInfo_footprint_generated :
+  forall (K : Fld) (rd rw : K -> K) (ipart : K -> Z) (fpart : K -> K) xs ys it cos_dt sin_dt at0 at1 d0 d1 z0 z1 x0 y0 old k,
+    valid_it it -> ~ (0 <= k < it * it) ->
+    gen_rot_genHInfo K rd rw ipart fpart xs ys it (it * it) cos_dt sin_dt at0 at1 d0 d1 z0 z1 x0 y0 old k = old k.
+Proof. exact rg_genHInfo_outside. Qed.
+Print Assumptions C02_rot_genHInfo_footprint_generated.
+
+(** which weight lands where: the write logs of the generated loops resolved - slot i1*it+j1 of the block holds the source
+    cell (x1+i1-c, y1+j1-c) with the weight icq[i1]*icp[j1] (x weight with x offset), or the fallback (0, 0) *)
+Theorem C02_rot_slot_generated :
+  forall (K : Fld) (rd rw : K -> K) (ipart : K -> Z) (fpart : K -> K) xs ys it cos_dt sin_dt at0 at1 d0 d1 z0 z1 x0 y0 old i1 j1,
+    let c1 := gen_rot_c1 K rd cos_dt sin_dt at0 at1 d0 d1 z0 z1 x0 y0 in
+    let c2 := gen_rot_c2 K rd cos_dt sin_dt at0 at1 d0 d1 z0 z1 x0 y0 in
+    let x1 := rx_f2u (ipart c1) in let y1 := rx_f2u (ipart c2) in
+    valid_it it -> (x1 <? xs) && (y1 <? ys) = true -> 0 <= i1 < it -> 0 <= j1 < it ->
+    gen_rot_genHInfo K rd rw ipart fpart xs ys it (it * it) cos_dt sin_dt at0 at1 d0 d1 z0 z1 x0 y0 old (i1 * it + j1) =
+    (let i0 := wrap32 (x1 + i1 - centre it) in let j0 := wrap32 (y1 + j1 - centre it) in
+     if (i0 <? xs) && (j0 <? ys)
+     then (wrap32 (i0 * ys + j0), rw (rx_nth (coeffs it (fpart c1)) i1 * rx_nth (coeffs it (fpart c2)) j1)%F)
+     else (0, f0)).
+Proof. exact rg_genHInfo_then. Qed.
+Print Assumptions C02_rot_slot_generated.
+
+(** the weights genHInfo writes for a grid point whose stencil lies inside the grid sum to one ... *)
+Theorem C02_rot_weights_unity_generated :
+  forall (K : Fld) (rd : K -> K) (ipart : K -> Z) (fpart : K -> K) xs ys it cos_dt sin_dt at0 at1 d0 d1 z0 z1 x0 y0 old,
+    let x1 := rx_f2u (ipart (gen_rot_c1 K rd cos_dt sin_dt at0 at1 d0 d1 z0 z1 x0 y0)) in
+    let y1 := rx_f2u (ipart (gen_rot_c2 K rd cos_dt sin_dt at0 at1 d0 d1 z0 z1 x0 y0)) in
+    valid_it it -> (x1 <? xs) && (y1 <? ys) = true -> rg_interior xs ys it x1 y1 ->
+    fsum (map (fun k => snd (gen_rot_genHInfo K rd (fun w => w) ipart fpart xs ys it (it * it) cos_dt sin_dt at0 at1 d0 d1 z0 z1 x0 y0 old k))
+              (zrange (it * it))) = f1.
+Proof. exact rg_generated_weights_unity. Qed.
+Print Assumptions C02_rot_weights_unity_generated.
+
+(** ... and reproduce every monomial x^k y^l, k, l < it, at the split coordinate *)
+Theorem C02_rot_poly_reproduction_generated :
+  forall (K : Fld) (rd : K -> K) (ipart : K -> Z) (fpart : K -> K) xs ys it cos_dt sin_dt at0 at1 d0 d1 z0 z1 x0 y0 old (k l : nat) (X Y : K),
+    let c1 := gen_rot_c1 K rd cos_dt sin_dt at0 at1 d0 d1 z0 z1 x0 y0 in
+    let c2 := gen_rot_c2 K rd cos_dt sin_dt at0 at1 d0 d1 z0 z1 x0 y0 in
+    let x1 := rx_f2u (ipart c1) in let y1 := rx_f2u (ipart c2) in
+    valid_it it -> (x1 <? xs) && (y1 <? ys) = true -> rg_interior xs ys it x1 y1 -> Z.of_nat k < it -> Z.of_nat l < it ->
+    fdot (map (fun s => snd (gen_rot_genHInfo K rd (fun w => w) ipart fpart xs ys it (it * it) cos_dt sin_dt at0 at1 d0 d1 z0 z1 x0 y0 old s))
+              (zrange (it * it)))
+         (tensor (nodes K it X k) (nodes K it Y l)) = (fpow (X + fpart c1) k * fpow (Y + fpart c2) l)%F.
+Proof. exact rg_generated_poly_reproduction. Qed.
+Print Assumptions C02_rot_poly_reproduction_generated.
+
+(** zero angle: the constructor's cos(-0) = 1, sin(-0) = 0 ... *)
+Theorem C02_rot_zero_angle_trig_generated :
+  forall (K : Fld) (cosf sinf : K -> K), cosf f0 = f1 -> sinf f0 = f0 ->
+    gen_rot_ctor_cos_dt K cosf f0 = f1 /\ gen_rot_ctor_sin_dt K sinf f0 = f0.
+Proof. exact rg_trig_zero. Qed.
+Print Assumptions C02_rot_zero_angle_trig_generated.
+
+(** ... on the axes of the generated Ruler at(i)/delta + zerobin = i ... *)
+Theorem C02_rot_ruler_cell_generated :
+  forall (K : Fld) (steps mn mx i : K), (mx - mn)%F <> f0 -> (steps - 1)%F <> f0 ->
+    (gen_ruler_at K mn (gen_ruler_delta K steps mn mx) i / gen_ruler_delta K steps mn mx + gen_ruler_zerobin K steps mn mx)%F = i.
+Proof. exact rg_ruler_cell. Qed.
+Print Assumptions C02_rot_ruler_cell_generated.
+
+(** ... so in exact arithmetic the row genHInfo writes for grid point (x0, y0), applied to any data, returns the data at
+    (x0, y0): rotation by zero is the identity map (one unit weight at the stencil centre) *)
+Theorem C02_rot_zero_angle_identity_generated :
+  forall (K : Fld) (ipart : K -> Z) (fpart : K -> K),
+    (forall z, ipart (fz z) = z) -> (forall z, fpart (fz z) = f0) ->
+    forall xs ys it (at0 at1 : Z -> K) d0 d1 z0 z1 x0 y0 (old : Z -> Z * K) (D : Z -> K),
+      valid_it it -> 0 <= x0 < xs -> 0 <= y0 < ys -> xs * ys <= 2 ^ 32 ->
+      (at0 x0 / d0 + z0)%F = fz x0 -> (at1 y0 / d1 + z1)%F = fz y0 ->
+      fsum (map (fun k => let e := gen_rot_genHInfo K (fun x => x) (fun x => x) ipart fpart xs ys it (it * it) f1 f0 at0 at1 d0 d1 z0 z1 x0 y0 old k in
+                          (D (fst e) * snd e)%F) (zrange (it * it))) = D (x0 * ys + y0).
+Proof. exact rg_zero_angle_identity. Qed.
+Print Assumptions C02_rot_zero_angle_identity_generated.
+
+(** every table index genHInfo writes addresses the xs*ys grid (the fallback entry is index 0), for every coordinate
+    value, every rounding and every split (C17 flavour; the float -> unsigned conversion itself is defined on (-1, 2^32) only) *)
+Theorem C02_rot_table_in_bounds_generated :
+  forall (K : Fld) (rd : K -> K) (ipart : K -> Z) (fpart : K -> K) xs ys it cos_dt sin_dt at0 at1 d0 d1 z0 z1 x0 y0 old (rw : K -> K) k,
+    valid_it it -> 0 < xs -> 0 < ys -> 0 <= k < it * it ->
+    0 <= fst (gen_rot_genHInfo K rd rw ipart fpart xs ys it (it * it) cos_dt sin_dt at0 at1 d0 d1 z0 z1 x0 y0 old k) < xs * ys.
+Proof. exact rg_generated_in_bounds. Qed.
+Print Assumptions C02_rot_table_in_bounds_generated.
+
+(** the local arrays of genHInfo (smc, the coefficient arrays, the 2-D view ph over ph1D) are used inside their allocations *)
+Theorem C02_rot_local_arrays_in_bounds_generated :
+  forall it, valid_it it ->
+    Forall (fun e => 0 <= fst e < gen_rot_smc_size it (it * it)) (gen_rot_smc_slots it (it * it)) /\
+    Forall (fun e => snd e <= fst e) (gen_rot_coeff_sizes it (it * it)) /\
+    Forall (fun i => 0 <= gen_rot_ph_row it (it * it) i /\ gen_rot_ph_row it (it * it) i + it <= snd (gen_rot_ph_sizes it (it * it)))
+           (gen_rot_ph_rows it (it * it)) /\
+    Z.of_nat (length (gen_rot_ph_rows it (it * it))) <= fst (gen_rot_ph_sizes it (it * it)).
+Proof. exact rg_locals_in_bounds. Qed.
+Print Assumptions C02_rot_local_arrays_in_bounds_generated.
+
+(** apply, precomputed table: the generated cell body (accumulation over _hinfo[i*_ip+j], then the clamp window
+    x*_it+y, x, y in 1..2) is the hand-written interpolation + saturation over the row the table holds for cell i *)
+Theorem C02_rot_table_cell_generated_is_model :
+  forall xs ys it clamp (H : Z -> Z * Qc) (D : Z -> Qc) (E : list (Z * Qc)) i,
+    valid_it it -> length E = Z.to_nat (it * it) -> 0 <= i -> (i + 1) * (it * it) <= 2 ^ 32 -> (clamp = true -> it = 4) ->
+    (forall j, 0 <= j < it * it -> H (i * (it * it) + j) = nth (Z.to_nat j) E (0, 0%Qc)) ->
+    gen_rot_table_cell rg_id xs ys it (it * it) clamp H D i = (i, rot_apply_cell_clamped it clamp E D).
+Proof. exact rg_table_cell_is_model. Qed.
+Print Assumptions C02_rot_table_cell_generated_is_model.
+
+(** apply, on-the-fly map: cell (q, p) writes data_out[q*ys+p] from the row genHInfo(q, p, &_hinfo[0]) has just written *)
+Theorem C02_rot_fly_cell_generated_is_model :
+  forall xs ys it clamp (G : Z -> Z -> (Z -> Z * Qc) -> Z -> Z * Qc) hinfo D (E : list (Z * Qc)) q p,
+    length E = Z.to_nat (it * it) -> 0 <= it * it -> 0 <= q * ys + p < 2 ^ 32 ->
+    (forall old j, 0 <= j < it * it -> G q p old j = nth (Z.to_nat j) E (0, 0%Qc)) ->
+    gen_rot_fly_cell rg_id xs ys it (it * it) clamp G hinfo D q p = (q * ys + p, rot_apply_cell E D).
+Proof. exact rg_fly_cell_is_model. Qed.
+Print Assumptions C02_rot_fly_cell_generated_is_model.
+
+(** the saturation: the clamped value lies between the two limits the code computes ... *)
+Theorem C02_rot_clamp_limits :
+  forall it E D v, let smp := rot_centre_samples it E D in
+    (fold_left rx_min smp rx_flt_max <= rot_clamp it E D v <= fold_left rx_max smp rx_flt_min)%Qc.
+Proof. exact rot_clamp_limits. Qed.
+Print Assumptions C02_rot_clamp_limits.
+
+(** ... hence between the smallest and the largest of the four centre samples as soon as one sample reaches
+    numeric_limits<float>::min() = 2^-126 and none exceeds numeric_limits<float>::max() ... *)
+Theorem C02_rot_clamp_between :
+  forall it E D v lo hi,
+    (forall s, In s (rot_centre_samples it E D) -> (lo <= s <= hi)%Qc) ->
+    (exists s, In s (rot_centre_samples it E D) /\ (rx_flt_min <= s)%Qc) ->
+    (forall s, In s (rot_centre_samples it E D) -> (s <= rx_flt_max)%Qc) ->
+    (lo <= rot_clamp it E D v <= hi)%Qc.
+Proof. exact rot_clamp_between. Qed.
+Print Assumptions C02_rot_clamp_between.
+
+(** ... and NOT without the first side condition: the upper limit starts from numeric_limits<float>::min(), the smallest
+    positive normal number (not the lowest value), so four centre samples of 0 and an interpolated value of 1 give 2^-126 *)
+Theorem C02_rot_clamp_between_samples_refuted :
+  exists (E : list (Z * Qc)) (D : Z -> Qc) (v : Qc),
+    (forall s, In s (rot_centre_samples 4 E D) -> s = 0%Qc) /\ rot_clamp 4 E D v = rx_flt_min /\ (0 < rx_flt_min)%Qc.
+Proof. exact rot_clamp_between_samples_refuted. Qed.
+Print Assumptions C02_rot_clamp_between_samples_refuted.
+
+(** a map that the generated constructor did not refuse clamps only with cubic interpolation and a precomputed table
+    (so the clamp window x*_it+y, x, y in 1..2, lies inside the 16 entries of the cell) *)
+Theorem C02_rot_clamp_only_cubic_table_generated :
+  forall a, rg_throws a = false -> ra_clamp a = true -> ra_it a = 4 /\ 0 < ra_rotmapsize a.
+Proof. exact rg_clamp_only_cubic_table. Qed.
+Print Assumptions C02_rot_clamp_only_cubic_table_generated.
+
+(** the constructor: after its genHInfo calls (program order, block of cell (q, p) at (q*ysize+p)*_ip) the table holds,
+    on the range they cover and whatever it held before, the row of grid point (s/_ip / ys, s/_ip mod ys) at entry s *)
+Theorem C02_rot_ctor_table_generated :
+  forall a P (ax ay : Z -> Qc), valid_it (ra_it a) ->
+    0 <= ra_xs a /\ 0 <= ra_ys a /\ ra_xs a * ra_ys a * (ra_it a * ra_it a) <= 2 ^ 32 -> ra_rotmapsize a <> 0 ->
+    forall H0 s, 0 <= s < ra_xs a * ra_ys a * (ra_it a * ra_it a) -> rg_ctor_hinfo a P ax ay H0 s = rg_table a P ax ay s.
+Proof. exact rg_ctor_table. Qed.
+Print Assumptions C02_rot_ctor_table_generated.
+
+(** the whole map, precomputed table: constructor + apply of the generated definitions write, cell by cell, the
+    (clamped) interpolation of the hand-written model over the row of the cell's own grid point *)
+Theorem C02_rot_table_map_generated_is_model :
+  forall a P (ax ay : Z -> Qc) H0 D, valid_it (ra_it a) ->
+    0 < ra_xs a /\ 0 < ra_ys a /\ ra_xs a * ra_ys a * (ra_it a * ra_it a) <= 2 ^ 32 ->
+    (forall q p, 0 <= q < ra_xs a -> 0 <= p < ra_ys a -> rot_defined P (ax q) (ay p) = true) ->
+    rg_throws a = false -> ra_rotmapsize a = ra_xs a * ra_ys a ->
+    rg_apply_writes a P ax ay (rg_ctor_hinfo a P ax ay H0) D =
+    map (fun i => (i, rot_apply_cell_clamped (ra_it a) (ra_clamp a)
+                        (rot_entries (ra_xs a) (ra_ys a) (ra_it a) P (ax (i / ra_ys a)) (ay (i mod ra_ys a))) D))
+        (zrange (ra_xs a * ra_ys a)).
+Proof. exact rg_table_map_is_model. Qed.
+Print Assumptions C02_rot_table_map_generated_is_model.
+
+(** the whole map, on the fly (rotmapsize = 0) *)
+Theorem C02_rot_fly_map_generated_is_model :
+  forall a P (ax ay : Z -> Qc) D, valid_it (ra_it a) ->
+    0 < ra_xs a /\ 0 < ra_ys a /\ ra_xs a * ra_ys a * (ra_it a * ra_it a) <= 2 ^ 32 ->
+    (forall q p, 0 <= q < ra_xs a -> 0 <= p < ra_ys a -> rot_defined P (ax q) (ay p) = true) ->
+    rg_throws a = false ->
+    forall H, ra_rotmapsize a = 0 ->
+    rg_apply_writes a P ax ay H D =
+    map (fun qp => (fst qp * ra_ys a + snd qp,
+                    rot_apply_cell (rot_entries (ra_xs a) (ra_ys a) (ra_it a) P (ax (fst qp)) (ay (snd qp))) D))
+        (flat_map (fun q => map (fun p => (q, p)) (zrange (ra_ys a))) (zrange (ra_xs a))).
+Proof. exact rg_fly_map_is_model. Qed.
+Print Assumptions C02_rot_fly_map_generated_is_model.
+
+(** non-vacuity: a 6 x 5 cubic map by a quarter turn on symmetric axes, one interior cell of the generated table, and a clamped cell *)
+Example C02_rot_generated_example :
+  let P := {| rp_cos := 0%Qc; rp_sin := Qcz (-1); rp_d0 := 1%Qc; rp_d1 := 1%Qc; rp_z0 := Qcz 3; rp_z1 := Qcz 2 |} in
+  let a := {| ra_xs := 6; ra_ys := 5; ra_it := 4; ra_rotmapsize := 30; ra_clamp := true |} in
+  rg_throws a = false /\
+  map (fun j => rg_table a P (fun x => Qcz (x - 3)) (fun y => Qcz (y - 2)) (16 * (3 * 5 + 2) + j)) [4; 5; 6] =
+    [(3 * 5 + 1, 0%Qc); (3 * 5 + 2, 1%Qc); (3 * 5 + 3, 0%Qc)].
+Proof. vm_compute. split; reflexivity. Qed.
 
 (** the rounding function the kick and rotation models use where the C++ rounds to float before a
     discontinuous decision is IEEE-754 binary32 round-to-nearest-even (Flocq's FLT format) *)
